@@ -26,6 +26,7 @@
   `Caches.Flags`; the harness replays the same histories on the real code).
 -/
 import UxVerif.Lemmas.Caches
+import UxVerif.Gen.GridWrites
 
 namespace UxVerif.C08
 open UxVerif.Caches
@@ -523,5 +524,92 @@ theorem asis_not_wf :
     ∧ wfB (uxTable { replace := true } (sigOf sEdges)) (sigOf sEdges) = false
     ∧ wfB (uxTable { rawNodeLon := true } (sigOf [.nodeXYZ, .faceNode])) (sigOf [.nodeXYZ, .faceNode]) = false := by
   decide +kernel
+
+/-! ## the population table REGENERATED from the source (`Gen/GridWrites.lean`, harness/translate_c08.py)
+
+  `ast` over `uxarray/grid/*.py` yields, for every lazily populated `Grid` attribute, the `_ds` keys /
+  private attributes its getter (and everything the getter hands the grid to) WRITES — each with a
+  provenance number —, the getters it READS, its longitude-wrap calls, and every write to a
+  module-level container / in-place `.data` rewrite / unmodelled key.  The theorems below are
+  re-checked against whatever the source says today; they tie the table the history-independence
+  theorems are about (`uxUnit repaired`, proved well-formed for every source by `ux_wfVar`) to the
+  source text instead of to a hand transcription. -/
+
+section Regenerated
+open UxVerif.Gen
+
+/-- the model's units do not depend on what the source supplies -/
+theorem uxUnit_sig_indep (fl : Flags) (sig sig' : Var → Bool) (v : Var) :
+    uxUnit fl sig v = uxUnit fl sig' v := by
+  cases v <;> rfl
+
+def lookupNat {β : Type} (l : List (Nat × β)) (k : Nat) : Option β := (l.find? (fun p => p.1 == k)).map Prod.snd
+
+def subsetV (a b : List Var) : Bool := a.all (fun x => b.contains x)
+def setEqV (a b : List Var) : Bool := subsetV a b && subsetV b a
+
+/-- regenerated: groups read through getters / groups written / provenances of the writes to `k` -/
+def gReads (R : List (Nat × List Nat)) (v : Var) : List Var := ((lookupNat R v.code).getD []).map Var.decode
+def gWriteKeys (W : List (Nat × List (Nat × Nat))) (v : Var) : List Var :=
+  (((lookupNat W v.code).getD []).map (fun p => Var.decode p.1)).eraseDups
+def gProvs (W : List (Nat × List (Nat × Nat))) (v k : Var) : List Nat :=
+  (((lookupNat W v.code).getD []).filter (fun p => p.1 == k.code)).map Prod.snd
+
+def mReads (v : Var) : List Var := (uxUnit repaired (fun _ => false) v).reads
+def mWrites (v : Var) : List Var := ((uxUnit repaired (fun _ => false) v).writes.map (fun w => w.var)).eraseDups
+
+/-- the model's unit of `v` is the regenerated one: it stores what the source stores for `v`'s own
+    variables, and it reads exactly what the source reads OR populates inline on the way (a populate
+    function called directly — `face_edge_connectivity` → `_populate_edge_node_connectivity`,
+    `face_areas` → the jacobian cell — is transcribed as a read of that variable's getter) -/
+def unitsMatch (R : List (Nat × List Nat)) (W : List (Nat × List (Nat × Nat))) : Bool :=
+  Var.all.all (fun v =>
+    setEqV (mReads v) ((gReads R v ++ gWriteKeys W v).filter (fun x => !(mWrites v).contains x && x != v))
+    && subsetV (mWrites v) (gWriteKeys W v))
+
+/-- two getters never store different things under one key: whenever two variable groups' getters
+    both write `k`, they write it from the same statements (same provenances) -/
+def sameMeaning (W : List (Nat × List (Nat × Nat))) : Bool :=
+  Var.all.all (fun v => Var.all.all (fun w => Var.all.all (fun k =>
+    (gProvs W v k).isEmpty || (gProvs W w k).isEmpty ||
+      ((gProvs W v k).all (fun p => (gProvs W w k).contains p) &&
+       (gProvs W w k).all (fun p => (gProvs W v k).contains p)))))
+
+/-- **No unlisted write.**  No `Grid` getter (nor anything it hands the grid to) writes a `_ds` key or
+    private attribute outside the modelled variables, a module-level container, or a stored
+    variable's `.data`; every modelled getter exists. -/
+theorem gen_no_unlisted_writes :
+    GridWrites.unknownWrites = [] ∧ GridWrites.moduleWrites = [] ∧ GridWrites.inplaceWrites = []
+    ∧ GridWrites.missingGetters = [] := by
+  decide +kernel
+
+/-- **The model's table is the source's table** (reads and writes of every unit). -/
+theorem gen_units_match : unitsMatch GridWrites.reads GridWrites.writes = true := by
+  decide +kernel
+
+/-- **Same key, same meaning** on the regenerated table. -/
+theorem gen_same_meaning : sameMeaning GridWrites.writes = true := by
+  decide +kernel
+
+/-- the longitude wrap: which getters call it after populating / on every call, and what it rewrites -/
+theorem gen_wraps :
+    GridWrites.wrapPop = (Var.all.filter (uxTable repaired (fun _ => false)).wrapPop).map Var.code
+    ∧ GridWrites.wrapGet = (Var.all.filter (uxTable repaired (fun _ => false)).wrapGet).map Var.code
+    ∧ GridWrites.wrapTargets = ["node_lon", "edge_lon", "face_lon"]
+    ∧ GridWrites.groups.length = Var.all.length := by
+  decide +kernel
+
+/-- non-vacuity: the regenerated table has content, and the checks reject a perturbed table -/
+example : gWriteKeys GridWrites.writes .faceEdge = [.edgeNode, .faceEdge]
+    ∧ gReads GridWrites.reads .bounds = [.nodeLL, .nodeXYZ, .faceNode, .faceEdge]
+    ∧ gWriteKeys GridWrites.writes .areas = [.areas, .jac] := by decide +kernel
+/-- a getter of `bounds` that also stored `hole_edge_indices` would not match; one that stored its own
+    `node_lon` (a variable it reads) is rejected by `sameMeaning` -/
+example : unitsMatch GridWrites.reads ((14, [(14, 1), (17, 2)]) :: GridWrites.writes) = false
+    ∧ sameMeaning ((14, [(14, 24292), (0, 2)]) :: GridWrites.writes) = false := by decide +kernel
+/-- `face_jacobian` storing something else than `face_areas` leaves in the cell would not pass -/
+example : sameMeaning ((20, [(20, 999)]) :: GridWrites.writes) = false := by decide +kernel
+
+end Regenerated
 
 end UxVerif.C08
